@@ -122,3 +122,116 @@ Proof.
   - now apply law_false_ok in K8.
   - apply law_lok; [exact K9 | exact Hc].
 Qed.
+
+(* ================= specification-level readings ================= *)
+(* the tick list of a level: the ascending list of ALL integer multiples of the level's spacing
+   inside the domain widened by the slack 1e-10 (mx - mn) *)
+Definition lin_level_list (base eb : Z) (mn mx : Q) (l : Z) (L : list Q) : Prop :=
+  StronglySorted Qlt L /\ forall v, In v L <-> exists k : Z, v = inject_Z k * lin_spacing base eb l /\ in_range mn mx v.
+
+Lemma lin_level_list_at base eb mn mx l : lin_ebase base = Some eb -> mn <= mx ->
+  lin_level_list base eb mn mx l (lin_ticks_at base eb mn mx false l).
+Proof.
+  intros He Ho. split; [exact (lin_ticks_ascending base eb mn mx He l) | intro v; exact (lin_ticks_at_spec base eb mn mx He Ho l v)].
+Qed.
+Lemma lin_level_list_length base eb mn mx l L : lin_ebase base = Some eb -> mn <= mx ->
+  lin_level_list base eb mn mx l L -> length L = length (lin_ticks_at base eb mn mx false l).
+Proof.
+  intros He Ho [S I]. destruct (lin_level_list_at base eb mn mx l He Ho) as [S' I'].
+  apply sorted_same_length; [exact S | exact S' |]. intro v. rewrite I, I'. reflexivity.
+Qed.
+
+Lemma lin_ticks_nonpos base mn mx o g : (o_max o <= 0)%Z -> lin_ticks base mn mx o g = TR_none.
+Proof. intro H. unfold lin_ticks, lin_ticks_gen. apply Z.leb_le in H. now rewrite H. Qed.
+Lemma lin_ticks_degenerate base mn mx o g : (1 <= o_max o)%Z -> mn == mx -> lin_ticks base mn mx o g = TR_ticks [mn] [mn].
+Proof.
+  intros H E. unfold lin_ticks, lin_ticks_gen. replace (o_max o <=? 0)%Z with false by (symmetry; apply Z.leb_gt; lia).
+  apply Qeqb_true in E. now rewrite E.
+Qed.
+Lemma lin_order_lt mn mx a b : ~ mn == mx -> lin_order mn mx = (a, b) -> a < b.
+Proof.
+  intros Hn. unfold lin_order. destruct (Qltb mx mn) eqn:S; intros [= <- <-]; gb_bool; [exact S|].
+  destruct (Qeq_dec mn mx); [contradiction | lra].
+Qed.
+Lemma lin_ticks_reorder base mn mx o g a b : ~ mn == mx -> lin_order mn mx = (a, b) ->
+  lin_ticks base mn mx o g = lin_ticks base a b o g.
+Proof.
+  intros Hn Eo. pose proof (lin_order_lt mn mx a b Hn Eo) as Lt. unfold lin_ticks, lin_ticks_gen.
+  destruct (o_max o <=? 0)%Z; [reflexivity|].
+  assert (E1 : Qeqb mn mx = false) by (destruct (Qeqb mn mx) eqn:E; [gb_bool; contradiction | reflexivity]).
+  assert (E2 : Qeqb a b = false) by (destruct (Qeqb a b) eqn:E; [gb_bool; lra | reflexivity]).
+  assert (E3 : Qltb b a = false) by (apply Qltb_false; lra).
+  rewrite E1, E2, E3. unfold lin_order in Eo. rewrite Eo. reflexivity.
+Qed.
+Lemma lin_ticks_no_panic base eb mn mx o g : lin_ebase base = Some eb -> lin_ticks base mn mx o g <> TR_panic.
+Proof.
+  intro He. unfold lin_ticks, lin_ticks_gen. destruct (o_max o <=? 0)%Z; [discriminate|]. destruct (Qeqb mn mx); [discriminate|].
+  destruct (if Qltb mx mn then (mx, mn) else (mn, mx)) as [a b]. rewrite He.
+  destruct (find_level o (lin_count base eb a b false) g); discriminate.
+Qed.
+
+(* what Ticks(o) on the domain [mn, mx] (any order) must return, stated on the observed lists *)
+Definition lin_ticks_spec (tolv : Q -> Q) (base eb : Z) (o : tickopts) (mn mx : Q) (st : Z) (major : list xreal) (minor : option (list xreal)) : Prop :=
+  st = 0%Z /\
+  let a := fst (lin_order mn mx) in let b := snd (lin_order mn mx) in
+  let none := major = [] /\ (forall m, minor = Some m -> m = []) in
+  ((o_max o <= 0)%Z -> none) /\
+  ((1 <= o_max o)%Z -> mn == mx -> obs_close tolv [mn] major /\ forall m, minor = Some m -> obs_close tolv [mn] m) /\
+  ((1 <= o_max o)%Z -> ~ mn == mx ->
+     a < b /\ (level_bounds o = None -> none) /\
+     forall lo hi, level_bounds o = Some (lo, hi) ->
+       (exists l L, (lo <= l <= hi)%Z /\ lin_level_list base eb a b l L /\ (Z.of_nat (length L) <= o_max o)%Z /\
+           obs_close tolv L major /\
+           (forall l' L', (lo <= l' < l)%Z -> lin_level_list base eb a b l' L' -> (o_max o < Z.of_nat (length L'))%Z) /\
+           (forall m, minor = Some m -> exists Lm, lin_level_list base eb a b (l - 1) Lm /\ obs_close tolv Lm m))
+       \/ (none /\ forall l L, (lo <= l <= hi)%Z -> lin_level_list base eb a b l L -> (o_max o < Z.of_nat (length L))%Z)).
+
+Lemma lin_ticks_obs_spec tolv base eb o mn mx st major minor : lin_ebase base = Some eb ->
+  ticks_obs tolv (lin_ticks base mn mx o 0) st major minor -> lin_ticks_spec tolv base eb o mn mx st major minor.
+Proof.
+  intros He H. unfold lin_ticks_spec. destruct (lin_order mn mx) as [a b] eqn:Eo. cbn [fst snd]. cbv zeta.
+  assert (St : st = 0%Z).
+  { pose proof (lin_ticks_no_panic base eb mn mx o 0 He) as NP.
+    destruct (lin_ticks base mn mx o 0); [contradiction | exact (proj1 H) | exact (proj1 H)]. }
+  split; [exact St|]. split; [|split].
+  - intro Hm. rewrite (lin_ticks_nonpos base mn mx o 0 Hm) in H. exact (proj2 H).
+  - intros Hm E. rewrite (lin_ticks_degenerate base mn mx o 0 Hm E) in H. exact (proj2 H).
+  - intros Hm Hn. pose proof (lin_order_lt mn mx a b Hn Eo) as Lt. split; [exact Lt|].
+    rewrite (lin_ticks_reorder base mn mx o 0 a b Hn Eo) in H.
+    assert (Ho : a <= b) by lra.
+    pose proof (lin_ticks_none_iff base eb a b o 0 Lt He Hm) as NI.
+    split.
+    + intro Hb. rewrite (proj2 NI (or_introl Hb)) in H. exact (proj2 H).
+    + intros lo hi Hb. destruct (lin_ticks base a b o 0) as [| |ma mi] eqn:T.
+      * exfalso. exact (lin_ticks_no_panic base eb a b o 0 He T).
+      * right. split; [exact (proj2 H)|]. destruct (proj1 NI eq_refl) as [N|(lo' & hi' & Hb' & N)]; [congruence|].
+        rewrite Hb in Hb'. injection Hb' as <- <-. intros l L Hl HL.
+        rewrite (lin_level_list_length base eb a b l L He Ho HL). now apply N.
+      * left. destruct (lin_ticks_correct base a b o 0 ma mi lo hi Lt Hb T) as (eb' & l & He' & Hl & -> & -> & Len & Low).
+        rewrite He in He'. injection He' as <-. destruct H as (_ & Hma & Hmi).
+        exists l, (lin_ticks_at base eb a b false l). split; [exact Hl|]. split; [now apply lin_level_list_at|].
+        split; [exact Len|]. split; [exact Hma|]. split.
+        -- intros l' L' Hl' HL'. rewrite (lin_level_list_length base eb a b l' L' He Ho HL'). now apply Low.
+        -- intros m Em. exists (lin_ticks_at base eb a b false (l - 1)). split; [now apply lin_level_list_at | now apply Hmi].
+Qed.
+
+Theorem lin_ticks_E_sound tolv o base eb mn mx st major minor : lin_ebase base = Some eb ->
+  lin_ticks_E tolv o base eb mn mx st major minor = true -> lin_ticks_spec tolv base eb o mn mx st major minor.
+Proof.
+  intros He H. unfold lin_ticks_E, lin_rt in H. destruct (lin_order mn mx) as [a b] eqn:Eo. cbn [fst snd] in H.
+  rewrite (lin_ticks_from_eq _ _ _ _ _ _ _ He Eo) in H. apply ticks_exact_sound in H.
+  now apply lin_ticks_obs_spec.
+Qed.
+
+(* CountTicks(l) / TicksAtLevel(l) on an ordered domain *)
+Definition lin_level_spec (tolv : Q -> Q) (base eb : Z) (mn mx : Q) (lv : levobs) : Prop :=
+  lv_st lv = 0%Z /\ lv_count lv = Z.of_nat (length (lv_ticks lv)) /\
+  exists L, lin_level_list base eb mn mx (lv_level lv) L /\ lv_count lv = Z.of_nat (length L) /\ obs_close tolv L (lv_ticks lv).
+Lemma lin_level_exact_sound tolv base eb mn mx lv : lin_ebase base = Some eb -> mn <= mx ->
+  lin_level_exact base eb mn mx tolv lv = true -> lin_level_spec tolv base eb mn mx lv.
+Proof.
+  intros He Ho H. unfold lin_level_exact in H. apply andb_prop in H. destruct H as [H H3]. apply andb_prop in H. destruct H as [H1 H2].
+  apply Z.eqb_eq in H1, H2. apply close_list_sound in H3. rewrite (lin_count_is_length base eb mn mx He Ho) in H2.
+  split; [exact H1|]. split; [rewrite H2; f_equal; symmetry; eapply obs_close_length; exact H3|].
+  exists (lin_ticks_at base eb mn mx false (lv_level lv)). split; [now apply lin_level_list_at|]. auto.
+Qed.
